@@ -1,5 +1,5 @@
 import AbraProofs.Lemmas.SchedChan
-import AbraProofs.Lemmas.Heap
+import AbraProofs.Lemmas.HeapIso
 /-!
 # C09 — channels deliver each value once, in order, as a valid independent copy; a read suspends only the reader
 
@@ -81,6 +81,17 @@ end Abra.Sched
 
 namespace Abra.Heap
 
+theorem deepCopy_unpack' {f : Nat} {H : Heaps} {t : Nat} {v v' : Val} {H' : Heaps}
+    (h : chanReceive f H t v = some (v', H')) : ∃ M', deepCopyM f H H [] t v = some (v', H', M') := by
+  unfold chanReceive deepCopy at h
+  cases hc : deepCopyM f H H [] t v with
+  | none => simp [hc] at h
+  | some r =>
+    obtain ⟨a, b, c⟩ := r
+    simp only [hc, Option.map_some, Option.some.injEq, Prod.mk.injEq] at h
+    obtain ⟨rfl, rfl⟩ := h
+    exact ⟨c, rfl⟩
+
 /-- **Scalars.**  For scalar payloads (int, float, bool) the received value is the written value,
     unconditionally: nothing is dereferenced. -/
 theorem C09_chan_copy_scalar (f : Nat) (H : Heaps) (t : Nat) (v : Val)
@@ -93,20 +104,31 @@ theorem C09_chan_copy_scalar (f : Nat) (H : Heaps) (t : Nat) (v : Val)
     time (neither mutated nor reclaimed in between), the reader receives a value that renders exactly as
     the written value did at write time, and everything reachable from it lives in the reader's heap
     (an independent copy). -/
-theorem C09_chan_copy_valid_partial (f : Nat) (Hw Hr : Heaps) (t : Nat) (v v' : Val) (H' : Heaps) (tr : Tree)
+theorem C09_chan_copy_valid_partial (f g : Nat) (Hw Hr : Heaps) (t : Nat) (v v' : Val) (H' : Heaps) (tr : Tree)
     (xs : List Addr)
-    (hwr : render f Hw v = some tr) (hxs : addrs f Hw v = some xs)
+    (hwr : render g Hw v = some tr) (hxs : addrs g Hw v = some xs)
     (hsame : ∀ a ∈ xs, lookup Hr a = lookup Hw a)
     (hrecv : chanReceive f Hr t v = some (v', H')) :
-    render f H' v' = some tr ∧ ∃ ys, addrs f H' v' = some ys ∧ ∀ a ∈ ys, a.tid = t := by
-  have hc := deepCopy_ok t f Hr v v' H' hrecv
-  have hr : render f Hr v = some tr := by rw [render_congr f v xs hxs hsame]; exact hwr
-  obtain ⟨tr', s1, s2⟩ := hc.same
-  have : tr' = tr := by
-    have := render_mono hc.ext f v tr hr
-    rw [s1] at this; exact Option.some.inj this
-  subst this
-  exact ⟨s2, hc.own⟩
+    render g H' v' = some tr ∧ ∀ w' x, ReachV H' v' w' → ptr? w' = some x → x.tid = t := by
+  have hr : render g Hr v = some tr := by rw [render_congr g v xs hxs hsame]; exact hwr
+  obtain ⟨M, hm⟩ := deepCopy_unpack' hrecv
+  obtain ⟨p, hv⟩ := deepCopyM_post Hr t f Hr [] v v' H' M hm
+  have iso := iso_of_post p
+  exact ⟨iso_render iso g v v' tr hv hr, iso_owned iso hv⟩
+
+/-- the same for arbitrary (shared, cyclic) payloads: if the reader finds the written graph unchanged, what it
+    receives is an isomorphic copy of the graph as it was written (same reachable values, object by object the
+    image of the written object), owned by the reader. -/
+theorem C09_chan_copy_graph_partial (f : Nat) (Hw Hr : Heaps) (t : Nat) (v v' : Val) (H' : Heaps)
+    (hsame : ∀ w x, ReachV Hw v w → ptr? w = some x → lookup Hr x = lookup Hw x)
+    (hrecv : chanReceive f Hr t v = some (v', H')) :
+    ∃ M, mapVal? M v = some v' ∧ Iso Hr H' t M ∧ (∀ w, ReachV Hw v w ↔ ReachV Hr v w) ∧
+      (∀ w x, ReachV Hw v w → ptr? w = some x → lookup Hr x = lookup Hw x) ∧
+      ∀ w' x, ReachV H' v' w' → ptr? w' = some x → x.tid = t := by
+  obtain ⟨M, hm⟩ := deepCopy_unpack' hrecv
+  obtain ⟨p, hv⟩ := deepCopyM_post Hr t f Hr [] v v' H' M hm
+  have iso := iso_of_post p
+  exact ⟨M, hv, iso, reach_congr hsame, hsame, iso_owned iso hv⟩
 
 /-- heaps in which thread 1 owns one struct `{ v: 1 }` -/
 def wH : Heaps := fun t => if t = 1 then [.struct [.int 1]] else []
